@@ -256,8 +256,8 @@ func ruleC06_1(c *Ctx) {
 				ups = append(ups, w)
 			}
 		}
-		if len(ups) != 2 {
-			c.bad(tag+": group update", p.pos(fn.Pos()), fmt.Sprintf("expected the append-to-existing and the new-group update of %s, found %d map updates", spec.field, len(ups)))
+		if len(ups) != 2 && len(ups) != 1 {
+			c.bad(tag+": group update", p.pos(fn.Pos()), fmt.Sprintf("expected the append-to-existing and the new-group update of %s (or the single m[slot] = append(m[slot], x)), found %d map updates", spec.field, len(ups)))
 			continue
 		}
 		elemOK := func(v ssa.Value) (bool, string) {
@@ -288,6 +288,12 @@ func ruleC06_1(c *Ctx) {
 							}
 						}
 					}
+					// single-statement form: m[slot] = append(m[slot], x) (a missing group is the nil slice)
+					if lk, ok := call.Call.Args[0].(*ssa.Lookup); ok && !lk.CommaOk && expr(lk.Index) == expr(w.Key) {
+						if _, is := fieldLoad(lk.X, f); is && len(els) == 1 {
+							elem, kind = els[0], "append-or-create"
+						}
+					}
 				}
 			} else if sl, ok := w.Val.(*ssa.Slice); ok {
 				els := varargElems(sl)
@@ -307,10 +313,24 @@ func ruleC06_1(c *Ctx) {
 			c.check(ok, tag+": group element ("+kind+")", c.at(w.Instr), "the iteration's own "+what,
 				"the element filed in the slot group is "+desc+", not the iteration's own "+what+": a key is lost, duplicated, or an MSET value is attached to the wrong key")
 		}
+		if len(ups) == 1 {
+			// one update per iteration: it must be on every path of the iteration
+			okDom := true
+			for _, pr := range loop.Header.Preds {
+				if loop.Blocks[pr] && !ups[0].Instr.Block().Dominates(pr) {
+					okDom = false
+				}
+			}
+			c.check(okDom, tag+": one group update per iteration", c.at(ups[0].Instr), "the single update dominates the loop's back edge", "the group update is skipped on some path of the iteration: a key is dropped")
+			goto errorExits
+		}
+		{
 		// the two updates are on the two edges of the presence test
 		excl := !ups[0].Instr.Block().Dominates(ups[1].Instr.Block()) && !ups[1].Instr.Block().Dominates(ups[0].Instr.Block()) &&
 			!reachableBlocks(ups[0].Instr.Block(), func(b *ssa.BasicBlock) bool { return b == loop.Header })[ups[1].Instr.Block()]
 		c.check(excl, tag+": one group update per iteration", c.at(ups[0].Instr), "append and create are on exclusive branches", "both group updates can run in one iteration: a key is filed twice")
+		}
+	errorExits:
 		// (e) error exits leave before anything is recorded
 		if len(keyAppends) == 1 {
 			allInstrs(fn, func(in ssa.Instruction) {
@@ -357,55 +377,72 @@ func (c *Ctx) emissions(fn *ssa.Function, f *types.Var) map[*ssa.BasicBlock][]to
 			if !ok || fieldVar(fa.X.Type(), fa.Field) != f {
 				continue
 			}
-			call, ok := st.Val.(*ssa.Call)
-			if !ok {
-				out[b] = append(out[b], token_{kind: "other", text: expr(st.Val), at: in})
-				continue
-			}
-			bi, ok := call.Call.Value.(*ssa.Builtin)
-			if !ok || bi.Name() != "append" || len(call.Call.Args) != 2 {
-				out[b] = append(out[b], token_{kind: "other", text: expr(st.Val), at: in})
-				continue
-			}
-			if _, self := fieldLoad(call.Call.Args[0], f); !self {
-				// append(x[:0], …) restarts the buffer
-				if sl, ok := call.Call.Args[0].(*ssa.Slice); ok && sl.High != nil && isZero(sl.High) {
-					out[b] = append(out[b], token_{kind: "reset", at: in})
-				} else {
-					out[b] = append(out[b], token_{kind: "other", text: expr(st.Val), at: in})
-					continue
-				}
-			}
-			a := call.Call.Args[1]
-			if els := varargElems(a); len(els) > 0 {
-				for _, e := range els {
-					if k, ok := constInt(e); ok {
-						out[b] = append(out[b], token_{kind: "byte", text: string(rune(k)), at: in})
-					} else {
-						out[b] = append(out[b], token_{kind: "val", text: expr(e), v: e, at: in})
-					}
-				}
-				continue
-			}
-			if s, ok := constString(a); ok {
-				out[b] = append(out[b], token_{kind: "lit", text: s, at: in})
-				continue
-			}
-			sa := strip(a)
-			if cl, ok := sa.(*ssa.Call); ok && staticCalleeName(&cl.Call) == "strconv.Itoa" {
-				out[b] = append(out[b], token_{kind: "itoa", text: expr(cl.Call.Args[0]), v: cl.Call.Args[0], at: in})
-				continue
-			}
-			if ld, ok := sa.(*ssa.UnOp); ok {
-				if g, ok := ld.X.(*ssa.Global); ok && g.Name() == "LFCRByte" {
-					out[b] = append(out[b], token_{kind: "crlf", at: in})
-					continue
-				}
-			}
-			out[b] = append(out[b], token_{kind: "val", text: expr(sa), v: sa, at: in})
+			isSelf := func(v ssa.Value) bool { _, self := fieldLoad(v, f); return self }
+			out[b] = append(out[b], c.tokensOf(st.Val, isSelf, in, 0)...)
 		}
 	}
 	return out
+}
+
+// tokensOf lists what is appended to a byte buffer to obtain v, walking back through append calls and
+// through helper functions of the form  func h(dst []byte, …) []byte  that only append to dst.
+func (c *Ctx) tokensOf(v ssa.Value, isSelf func(ssa.Value) bool, at ssa.Instruction, depth int) []token_ {
+	if isSelf(v) {
+		return nil
+	}
+	if sl, ok := v.(*ssa.Slice); ok && sl.High != nil && isZero(sl.High) && isSelf(sl.X) {
+		return []token_{{kind: "reset", at: at}}
+	}
+	call, ok := v.(*ssa.Call)
+	if !ok || depth > 2 {
+		return []token_{{kind: "other", text: expr(v), at: at}}
+	}
+	if bi, ok := call.Call.Value.(*ssa.Builtin); ok {
+		if bi.Name() != "append" || len(call.Call.Args) != 2 {
+			return []token_{{kind: "other", text: expr(v), at: at}}
+		}
+		return append(c.tokensOf(call.Call.Args[0], isSelf, at, depth), tokenize(call.Call.Args[1], at)...)
+	}
+	// helper: result is its first parameter with things appended
+	h := call.Call.StaticCallee()
+	if h == nil || h.Blocks == nil || !c.P.ownFunc(h) || len(call.Call.Args) == 0 || len(h.Params) == 0 {
+		return []token_{{kind: "other", text: expr(v), at: at}}
+	}
+	rets := returnsReachable(h)
+	if len(rets) != 1 {
+		return []token_{{kind: "other", text: expr(v), at: at}}
+	}
+	bindCall(h, call.Call.Args)
+	dst := h.Params[0]
+	inner := c.tokensOf(results(rets[0].(*ssa.Return))[0], func(x ssa.Value) bool { return x == ssa.Value(dst) }, at, depth+1)
+	return append(c.tokensOf(call.Call.Args[0], isSelf, at, depth), inner...)
+}
+
+func tokenize(a ssa.Value, at ssa.Instruction) []token_ {
+	if els := varargElems(a); len(els) > 0 {
+		var out []token_
+		for _, e := range els {
+			if k, ok := constInt(e); ok {
+				out = append(out, token_{kind: "byte", text: string(rune(k)), at: at})
+			} else {
+				out = append(out, token_{kind: "val", text: expr(e), v: e, at: at})
+			}
+		}
+		return out
+	}
+	if s, ok := constString(a); ok {
+		return []token_{{kind: "lit", text: s, at: at}}
+	}
+	sa := strip(a)
+	if cl, ok := sa.(*ssa.Call); ok && staticCalleeName(&cl.Call) == "strconv.Itoa" {
+		return []token_{{kind: "itoa", text: expr(cl.Call.Args[0]), v: cl.Call.Args[0], at: at}}
+	}
+	if ld, ok := sa.(*ssa.UnOp); ok {
+		if g, ok := ld.X.(*ssa.Global); ok && g.Name() == "LFCRByte" {
+			return []token_{{kind: "crlf", at: at}}
+		}
+	}
+	return []token_{{kind: "val", text: expr(sa), v: sa, at: at}}
 }
 
 func tokString(ts []token_) string {
